@@ -208,11 +208,11 @@ PollerDone(k) ==    \* the done() callback of wait_for_<k>
     /\ UNCHANGED <<prior, arch, prio, wait, busy, doing, que, sub, subp, nsub, nenv, ncyc, nraw>>
 
 (* ---- environment -------------------------------------------------------------- *)
-Env ==
+Env ==          \* the scheduler's environment bits; a unit that is executing is also in the work queue (doing => que)
     /\ nenv < MaxEnv /\ nenv' = nenv + 1
     /\ \/ busy' = ~busy /\ UNCHANGED <<doing, que, arch>>
-       \/ doing' = ~doing /\ UNCHANGED <<busy, que, arch>>
-       \/ que' = ~que /\ UNCHANGED <<busy, doing, arch>>
+       \/ doing' = ~doing /\ que' = (que \/ doing') /\ UNCHANGED <<busy, arch>>
+       \/ que' = ~que /\ (que => ~doing) /\ UNCHANGED <<busy, doing, arch>>
        \/ arch' = TRUE /\ ~arch /\ UNCHANGED <<busy, doing, que>>
     /\ fire' = NoFire /\ rejected' = FALSE /\ path' = <<st>>
     /\ UNCHANGED <<st, tr, prior, bg, prio, wait, slot, sub, subp, nfired, nsub, ncyc, nraw>>
